@@ -292,6 +292,8 @@ pub fn alphabet() -> Vec<Sym> {
         Sym::Raw("open_sorted", r#"open {"files":["{FILE}"],"sort":true}"#),
         // two plugins of the same name + one that does not support commands (only used in prepared start states)
         Sym::Raw("open_plugins", r#"open {"files":["{FILE}"],"plugins":[{"name":"FileTransfer","allowSave":false},{"name":"FileTransfer","allowSave":false,"keepFLDA":true},{"name":"Rewrite","rewrites":[]}]}"#),
+        // an archive: `open` answers while the extraction is pending (no parser threads yet); only used in a flow search
+        Sym::Raw("open_zip", r#"open {"files":["{FILE}.zip"]}"#),
         Sym::Raw("open_missing_file", r#"open {"files":["/nonexistent/x.dlt"]}"#),
         Sym::Raw("open_malformed_json", r#"open {"files":"#),
         Sym::Raw("open_noarg", "open"),
@@ -519,7 +521,7 @@ impl Session {
             let name = sym.name();
             let expect: Option<&str> = match sym {
                 Sym::Raw(n, _) => match *n {
-                    "open_ok" | "open_onepass" | "open_nocollect" | "open_sorted" | "open_plugins" => Some(if self.model.open { "err" } else { "ok" }),
+                    "open_ok" | "open_onepass" | "open_nocollect" | "open_sorted" | "open_plugins" | "open_zip" => Some(if self.model.open { "err" } else { "ok" }),
                     "open_missing_file" | "open_malformed_json" | "open_noarg" | "open_badcollect" => Some("err"),
                     "close" | "pause" | "resume" => Some(if self.model.open { "ok" } else { "err" }),
                     "stream_nobody" | "stream_malformed" => Some("err"),
@@ -695,6 +697,8 @@ impl Prop for C15 {
         let dir = scratch_dir();
         let file = format!("{dir}/log8.dlt");
         std::fs::write(&file, gen_log(8).0).expect("write log");
+        // the same log inside an archive (opened through the archive path: extraction runs before the parser exists)
+        std::fs::write(format!("{file}.zip"), crate::c20::write_zip(&[("log8.dlt".to_string(), gen_log(8).0)])).expect("write zip");
         // backpressure scenarios run concurrently with the search
         let big = format!("{dir}/big.dlt");
         std::fs::write(&big, gen_big_log(700_000)).expect("write big log");
@@ -729,7 +733,7 @@ impl Prop for C15 {
         // (start history, depth, alphabet of the search). The searches over the full alphabet share one seen-set; the
         // "flow" searches go deeper over the session-flow commands only (pause/resume/stream/stop/ticks) and keep their own
         // seen-set, so that states already met at a shallower depth are expanded again
-        let full: Arc<Vec<Sym>> = Arc::new(sigma.iter().filter(|s| !["open_plugins", "query_filters_wide", "chgwin_last_shrink"].contains(&s.name().as_str())).cloned().collect());
+        let full: Arc<Vec<Sym>> = Arc::new(sigma.iter().filter(|s| !["open_plugins", "open_zip", "query_filters_wide", "chgwin_last_shrink"].contains(&s.name().as_str())).cloned().collect());
         let sub = |names: &[&str]| -> Option<Arc<Vec<Sym>>> { Some(Arc::new(names.iter().map(|n| sigma.iter().find(|s| &s.name() == n).unwrap_or_else(|| panic!("symbol {n}")).clone()).collect())) };
         let flow_depth = ctx.tier.pick(4, 6);
         let seeds: Vec<(Vec<Sym>, usize, Option<Arc<Vec<Sym>>>)> = vec![
@@ -745,6 +749,8 @@ impl Prop for C15 {
             (by(&["open_plugins", "stream_default", "T3"]), ctx.tier.pick(2, 3), None),
             (by(&["open_onepass", "stream_onepass", "resume", "T3"]), flow_depth, sub(&["pause", "resume", "stream_onepass", "stream_onepass_filters", "query_window", "stop_last", "close", "T1", "T3", "Tinf"])),
             (by(&["open_ok", "stream_default", "T3"]), flow_depth - 1, sub(&["pause", "resume", "stream_default", "stream_filters", "query_window", "stop_last", "chgwin_last", "T1", "T3", "Tinf"])),
+            // a session on an archive: commands while the extraction is pending (before the first tick) and afterwards
+            (by(&["open_zip"]), ctx.tier.pick(3, 4), sub(&["stream_default", "stream_filters", "query_window", "bsearch_time", "bsearch_index", "ssearch_good", "chgwin_last", "stop_last", "pause", "resume", "close", "T3", "Tinf"])),
             // a filtered query that has collected matches but is still running: window changes (also to a window that
             // ends below the matches collected so far) while further messages arrive
             (by(&["open_ok", "query_filters_wide", "T3"]), ctx.tier.pick(3, 4), sub(&["chgwin_last_shrink", "chgwin_last", "query_filters_wide", "stream_filters", "stop_last", "pause", "resume", "T1", "T3", "Tinf"])),
@@ -961,6 +967,8 @@ impl Prop for C15 {
         let dir = scratch_dir();
         let file = format!("{dir}/log8.dlt");
         std::fs::write(&file, gen_log(8).0).expect("write log");
+        // the same log inside an archive (opened through the archive path: extraction runs before the parser exists)
+        std::fs::write(format!("{file}.zip"), crate::c20::write_zip(&[("log8.dlt".to_string(), gen_log(8).0)])).expect("write zip");
         let mut sess = Session::new(&file);
         // judge every prefix so that the failing step is reported wherever it sits
         for k in 1..=h.len() {
